@@ -42,48 +42,47 @@ func init() {
 // optimal alignments.
 func lcsTable(a, b []int) (length int, ways int64) {
 	m, n := len(a), len(b)
-	L := make([][]int32, m+1)
-	W := make([][]int64, m+1)
-	for i := range L {
-		L[i] = make([]int32, n+1)
-		W[i] = make([]int64, n+1)
-		W[i][0] = 1
-	}
-	for j := range W[0] {
-		W[0][j] = 1
+	// two rolling rows of the table (the full table of an 11 700 x 11 700 pair would take 1.6 GB)
+	Lp, Lc := make([]int32, n+1), make([]int32, n+1)
+	Wp, Wc := make([]int64, n+1), make([]int64, n+1)
+	for j := range Wp {
+		Wp[j] = 1
 	}
 	const sat = int64(1) << 40
 	for i := 1; i <= m; i++ {
+		Lc[0], Wc[0] = 0, 1
 		for j := 1; j <= n; j++ {
-			best := L[i-1][j]
-			if L[i][j-1] > best {
-				best = L[i][j-1]
+			best := Lp[j]
+			if Lc[j-1] > best {
+				best = Lc[j-1]
 			}
 			match := a[i-1] == b[j-1]
-			if match && L[i-1][j-1]+1 > best {
-				best = L[i-1][j-1] + 1
+			if match && Lp[j-1]+1 > best {
+				best = Lp[j-1] + 1
 			}
-			L[i][j] = best
+			Lc[j] = best
 			var w int64
-			if match && L[i-1][j-1]+1 == best {
-				w += W[i-1][j-1]
+			if match && Lp[j-1]+1 == best {
+				w += Wp[j-1]
 			}
-			if L[i-1][j] == best {
-				w += W[i-1][j]
+			if Lp[j] == best {
+				w += Wp[j]
 			}
-			if L[i][j-1] == best {
-				w += W[i][j-1]
+			if Lc[j-1] == best {
+				w += Wc[j-1]
 			}
-			if L[i-1][j] == best && L[i][j-1] == best && L[i-1][j-1] == best {
-				w -= W[i-1][j-1]
+			if Lp[j] == best && Lc[j-1] == best && Lp[j-1] == best {
+				w -= Wp[j-1]
 			}
 			if w > sat {
 				w = sat
 			}
-			W[i][j] = w
+			Wc[j] = w
 		}
+		Lp, Lc = Lc, Lp
+		Wp, Wc = Wc, Wp
 	}
-	return int(L[m][n]), W[m][n]
+	return int(Lp[n]), Wp[n]
 }
 
 func editsString(es []slice.Edit[int]) string {
@@ -462,6 +461,18 @@ func runC11(c *fw.Ctx) {
 		if a {
 			c.Add("ambiguous_pairs", 1)
 		}
+	}
+	// 32-bit build, thorough tier: a pair whose length product passes 2^31 (46341 x 46341)
+	if c.Flavour == "386" && c.Thorough() && c.Block == 0 && c.Begin(idx+955000) {
+		n := 46341
+		lhs, rhs := make([]int, n), make([]int, n)
+		for i := range lhs {
+			lhs[i] = i % 1000
+			rhs[i] = (i + 7) % 1000
+		}
+		c11check(c, lhs, rhs)
+		c.Add("pairs", 1)
+		c.Add("length_product_beyond_2_to_the_31_pairs", 1)
 	}
 	// wrap-around schedule: a larger call, then exactly N one-element calls, then
 	// a larger call on unrelated content, for N around 2^8 and 2^16 (one N per
